@@ -329,6 +329,15 @@ def distances(seed, n):
                 forms.append(("a.distance(b)", lambda: A.distance(B)))
             if kb != "Point":
                 forms.append(("b.distance(a)", lambda: B.distance(A)))
+            if kb == "Plane":
+                # the same plane given in general form a x + b y + c z = d (non-unit (a, b, c))
+                nn = b[2]
+                gf = [O.to_number(c, "float") for c in nn] + [O.to_number(O.dot(nn, b[1]), "float")]
+                B2 = _call(g.Plane, *gf)
+                if B2[0] == "exc":
+                    acc.fail(klass, "Plane(a, b, c, d) raised %r" % (B2[1],), case, expected=exp)
+                    continue
+                forms += [("distance(a, Plane(a,b,c,d))", lambda: g.distance(A, B2[1])), ("distance(Plane(a,b,c,d), a)", lambda: g.distance(B2[1], A))]
             for name, f in forms:
                 r = _call(f)
                 if r[0] == "exc":
